@@ -1157,10 +1157,18 @@ static void array_initializer2(Token **rest, Token *tok, Initializer *init, int 
 }
 
 // struct-initializer1 = "{" initializer ("," initializer)* ","? "}"
+// [https://www.sigbus.info/n1570#6.7.9p9] Unnamed members (i.e. unnamed
+// bit-fields) do not participate in initialization.
+static Member *skip_unnamed(Member *mem) {
+  while (mem && !mem->name && mem->is_bitfield)
+    mem = mem->next;
+  return mem;
+}
+
 static void struct_initializer1(Token **rest, Token *tok, Initializer *init) {
   tok = skip(tok, "{");
 
-  Member *mem = init->ty->members;
+  Member *mem = skip_unnamed(init->ty->members);
   bool first = true;
 
   while (!consume_end(rest, tok)) {
@@ -1171,13 +1179,13 @@ static void struct_initializer1(Token **rest, Token *tok, Initializer *init) {
     if (equal(tok, ".")) {
       mem = struct_designator(&tok, tok, init->ty);
       designation(&tok, tok, init->children[mem->idx]);
-      mem = mem->next;
+      mem = skip_unnamed(mem->next);
       continue;
     }
 
     if (mem) {
       initializer2(&tok, tok, init->children[mem->idx]);
-      mem = mem->next;
+      mem = skip_unnamed(mem->next);
     } else {
       tok = skip_excess_element(tok);
     }
@@ -1190,7 +1198,7 @@ static void struct_initializer2(Token **rest, Token *tok, Initializer *init, Mem
   // `tok` points at the comma that follows that member's initializer.
   bool first = (mem == init->ty->members);
 
-  for (; mem && !is_end(tok); mem = mem->next) {
+  for (mem = skip_unnamed(mem); mem && !is_end(tok); mem = skip_unnamed(mem->next)) {
     Token *start = tok;
 
     if (!first)
@@ -1219,14 +1227,16 @@ static void union_initializer(Token **rest, Token *tok, Initializer *init) {
     return;
   }
 
-  init->mem = init->ty->members;
+  init->mem = skip_unnamed(init->ty->members);
+  if (!init->mem)
+    error_tok(tok, "union has no named member to initialize");
 
   if (equal(tok, "{")) {
-    initializer2(&tok, tok->next, init->children[0]);
+    initializer2(&tok, tok->next, init->children[init->mem->idx]);
     consume(&tok, tok, ",");
     *rest = skip(tok, "}");
   } else {
-    initializer2(rest, tok, init->children[0]);
+    initializer2(rest, tok, init->children[init->mem->idx]);
   }
 }
 
